@@ -764,7 +764,54 @@ def wl_queries(rng, rec, tier):
     return {"L": L}
 
 
+def wl_circuit(rng, rec, tier):
+    """the record that the MPS circuit classes thread through their gates
+    (gate_opts['info']) vs the state they hold, after every circuit call"""
+    import quimb.tensor as qtn
+    from . import c07
+    N = int(rng.integers(2, 7))
+    kind = gen.choice(rng, ["CircuitMPS", "CircuitMPS", "CircuitPermMPS"])
+    kw = {}
+    if rng.random() < 0.5:
+        kw["cutoff"] = 0.0
+    if kind == "CircuitMPS" and rng.random() < 0.4:
+        kw["gate_contract"] = gen.choice(rng, ["auto-mps", "swap+split", "nonlocal"])
+    if rng.random() < 0.2:
+        kw["convert_eager"] = False
+    circ = gen.attempt2(getattr(qtn, kind), N, **kw)
+    if circ is gen.REJECTED:
+        return {"rejected": True}
+    circs = [circ]
+    names = []
+    for step in range(int(rng.integers(2, 25))):
+        c = gen.choice(rng, circs)
+        r = rng.random()
+        if r < 0.6:
+            g = c07.rand_gate(rng, N)
+            res = c07.do_gate(c, g, rng)
+            names.append("gate")
+            if res is gen.REJECTED:
+                # documented: a rejected gate leaves the circuit as it was
+                names.append("rejected")
+        elif r < 0.9:
+            c07.do_query(c, rng, N, False)
+            names.append("query")
+        elif len(circs) < 3:
+            c2 = gen.attempt2(c.copy)
+            if c2 is not gen.REJECTED:
+                circs.append(c2)
+                names.append("copy")
+        rec.busy = True
+        try:
+            for cc in circs:
+                check_record(rec, cc._psi, cc.gate_opts.get("info"), "circuit:" + kind, clause="caller_object")
+        finally:
+            rec.busy = False
+    return {"kind": kind, "N": N, "ops": names[:30]}
+
+
 WORKLOADS = [
     ("history", 6, wl_history),
     ("queries", 2, wl_queries),
+    ("circuit", 2, wl_circuit),
 ]
